@@ -4,10 +4,13 @@
     its round-trip law [sym_law] is assumed (Section hypotheses, discharged at instantiation). *)
 From Coq Require Import ZifyBool.
 From Draco Require Import Base.Codec Base.Bits Base.Float32 Gen.Constants Model.Varint Model.Wrap Model.Quantize
-  Model.SeqAttr Proofs.Varint_proofs Proofs.Wrap_proofs.
+  Model.Octahedron Model.SeqAttr Proofs.Varint_proofs Proofs.Wrap_proofs Proofs.Octahedron_proofs.
 Local Open Scope Z_scope.
 
 (** * generic list facts *)
+
+Lemma Some_inj' {A} (a b : A) : Some a = Some b -> a = b.
+Proof. congruence. Qed.
 
 Lemma Forall_concat {A} (P : A -> Prop) (ll : list (list A)) :
   Forall (Forall P) ll -> Forall P (concat ll).
@@ -385,20 +388,7 @@ Section IntBlock.
   Proof. reflexivity. Qed.
 
   (** the decoder, stage by stage *)
-  Definition dec_body (nv nc : nat) (r1 : bytes) : option (list Z * bytes) :=
-    match r1 with
-    | [] => None
-    | comp :: r2 =>
-      if comp >? 0 then dec_syms nv nc r2
-      else match r2 with
-           | [] => None
-           | nb :: r3 =>
-             if nb =? 4 then dec_raw_vals nv 4 r3
-             else if 4 * Z.of_nat nv <? nb * Z.of_nat nv then None
-             else if Z.of_nat (length r3) <? nb * Z.of_nat nv then None
-             else dec_raw_vals nv (Z.to_nat nb) r3
-           end
-    end.
+  Definition dec_body (nv nc : nat) (r1 : bytes) : option (list Z * bytes) := dec_sym_body dec_syms nv nc r1.
   Definition dec_tail (delta : bool) (nc : nat) (vals : list Z) (r4 : bytes) : option (list (list Z) * bytes) :=
     if delta then
       match dec_le 4 r4 with
@@ -443,7 +433,7 @@ Section IntBlock.
         end
       end.
   Proof.
-    unfold dec_rest, dec_body. destruct (nc =? 0)%nat; [reflexivity|]. destruct (n =? 0)%nat; [reflexivity|].
+    unfold dec_rest, dec_body, dec_sym_body. destruct (nc =? 0)%nat; [reflexivity|]. destruct (n =? 0)%nat; [reflexivity|].
     destruct r1; reflexivity.
   Qed.
 
@@ -472,7 +462,7 @@ Section IntBlock.
     sym_guard' (Z.of_nat nc) syms -> enc_syms method lvl (Z.of_nat nc) syms = Some body ->
     dec_body (length syms) nc ([1] ++ body ++ rest) = Some (syms, rest).
   Proof.
-    intros Hnc Hg He. cbn [app dec_body]. change (1 >? 0) with true. cbv iota.
+    intros Hnc Hg He. unfold dec_body. cbn [app dec_sym_body]. change (1 >? 0) with true. cbv iota.
     pose proof (sym_law method lvl (Z.of_nat nc) syms body rest Hg He) as H.
     rewrite Nat2Z.id in H. exact H.
   Qed.
@@ -483,7 +473,7 @@ Section IntBlock.
   Proof.
     intros HF. destruct (raw_num_bytes_ok syms HF) as [Hnb Hfit].
     set (nb := raw_num_bytes syms) in *. clearbody nb.
-    cbn [app dec_body]. change (0 >? 0) with false. cbv iota.
+    unfold dec_body. cbn [app dec_sym_body]. change (0 >? 0) with false. cbv iota.
     destruct (nb =? 4) eqn:E4.
     - assert (nb = 4) by lia. subst nb. change (Z.to_nat 4) with 4%nat in *.
       apply raw_vals_roundtrip. exact Hfit.
@@ -794,7 +784,7 @@ Section IntBlockShape.
   Lemma dec_body_len nv nc r1 syms r4 : (1 <= nc)%nat -> (exists k, nv = (k * nc)%nat) ->
     dec_body dec_syms nv nc r1 = Some (syms, r4) -> length syms = nv.
   Proof.
-    intros Hnc Hk. unfold dec_body. destruct r1 as [|comp r2]; [discriminate|].
+    intros Hnc Hk. unfold dec_body, dec_sym_body. destruct r1 as [|comp r2]; [discriminate|].
     destruct (comp >? 0); [apply sym_len; assumption|].
     destruct r2 as [|nb r3]; [discriminate|].
     destruct (nb =? 4); [apply dec_raw_vals_len|].
@@ -840,3 +830,265 @@ Section IntBlockShape.
     length rows = n /\ Forall (fun row => length row = nc) rows.
   Proof. intros H. destruct (dec_int_block_cases _ _ _ _ H) as (delta & r1 & H'). apply (dec_rest_shape _ _ _ _ _ _ H'). Qed.
 End IntBlockShape.
+
+(** * Quantized normals: the 2-component block with the canonicalized octahedral delta transform *)
+
+Lemma pairs_flat pts : pairs (flat_pts pts) = pts.
+Proof.
+  induction pts as [|[s t] pts IH]; [reflexivity|].
+  unfold flat_pts in *. cbn [map concat fst snd app pairs]. rewrite IH. reflexivity.
+Qed.
+
+Lemma flat_pts_length pts : length (flat_pts pts) = (length pts * 2)%nat.
+Proof. induction pts as [|p pts IH]; [reflexivity|]. unfold flat_pts in *. cbn [map concat app length]. rewrite IH. lia. Qed.
+
+Lemma pairs_length : forall k l, length l = (k * 2)%nat -> length (pairs l) = k.
+Proof.
+  induction k as [|k IH]; intros l Hl.
+  - destruct l; [reflexivity|cbn in Hl; lia].
+  - destruct l as [|a [|b l]]; try (cbn in Hl; lia). cbn [pairs length]. rewrite IH; [reflexivity|cbn in Hl; lia].
+Qed.
+
+Lemma oct_delta_orig_length step : forall corrs prev, length (oct_delta_orig step prev corrs) = length corrs.
+Proof. induction corrs as [|c corrs IH]; intros prev; [reflexivity|]. cbn [oct_delta_orig length]. rewrite IH. reflexivity. Qed.
+
+Lemma Forall_flat_pts (P : Z -> Prop) pts : Forall (fun p => P (fst p) /\ P (snd p)) pts -> Forall P (flat_pts pts).
+Proof.
+  induction 1 as [|p pts [H1 H2] _ IH]; [constructor|]. unfold flat_pts in *. cbn [map concat app].
+  constructor; [exact H1|]. constructor; [exact H2|exact IH].
+Qed.
+
+(** the decoder's DecodeTransformData recovers the tool box of the encoder from max_quantized_value
+    (finite domain q = 2..30, checked by computation; the bound is set_quantization_bits' own) *)
+Definition obox_eqb (a b : obox) : bool :=
+  (ob_q a =? ob_q b) && (ob_mqv a =? ob_mqv b) && (ob_maxv a =? ob_maxv b) && (ob_center a =? ob_center b).
+Lemma obox_eqb_eq a b : obox_eqb a b = true -> a = b.
+Proof. destruct a as [a1 a2 a3 a4], b as [b1 b2 b3 b4]. unfold obox_eqb. cbn [ob_q ob_mqv ob_maxv ob_center]. intros H. f_equal; lia. Qed.
+
+Lemma set_qb_dec_init q b : set_quantization_bits q = Some b ->
+  oct_canon_dec_init (ob_mqv b) = Some b /\ 0 <= ob_mqv b < 2 ^ 31 /\ 0 <= ob_center b < 2 ^ 31.
+Proof.
+  intros Hb.
+  assert (Hq : 2 <= q <= 30).
+  { unfold set_quantization_bits in Hb. destruct ((q <? 2) || (q >? 30)) eqn:E; [discriminate|lia]. }
+  pose (f := fun q => match set_quantization_bits (q + 2) with
+                      | Some b => match oct_canon_dec_init (ob_mqv b) with Some b' => obox_eqb b' b | None => false end
+                                  && (0 <=? ob_mqv b) && (ob_mqv b <? 2 ^ 31) && (0 <=? ob_center b) && (ob_center b <? 2 ^ 31)
+                      | None => false end).
+  assert (H : f (q - 2) = true).
+  { apply (range_forallb f 29); [vm_compute; reflexivity | lia]. }
+  unfold f in H. clear f. cbv beta in H. replace (q - 2 + 2) with q in H by lia. rewrite Hb in H.
+  destruct (oct_canon_dec_init (ob_mqv b)) as [b'|]; [|discriminate].
+  destruct (obox_eqb b' b) eqn:E; [|discriminate]. apply obox_eqb_eq in E. subst b'.
+  split; [reflexivity|]. change (2 ^ 31) with 2147483648 in *. lia.
+Qed.
+
+Lemma in_square_i32 c p : 1 <= c <= cmax -> in_square c p -> i32 (fst p) /\ i32 (snd p).
+Proof. unfold in_square, cmax, i32. intros. lia. Qed.
+
+Section NormBlock.
+  Variable enc_syms : Z -> Z -> Z -> list Z -> option bytes.
+  Variable dec_syms : nat -> nat -> bytes -> option (list Z * bytes).
+  Variable sym_guard' : Z -> list Z -> Prop.
+  Hypothesis sym_law : forall method lvl nc syms bs rest, sym_guard' nc syms ->
+    enc_syms method lvl nc syms = Some bs -> dec_syms (length syms) (Z.to_nat nc) (bs ++ rest) = Some (syms, rest).
+
+  (** the delta predictor with the canonicalized octahedral transform: every original the encoder feeds is canonical
+      (C07), every prediction is the previous decoded point, hence in the square; the first prediction is (0,0) *)
+  Lemma oct_delta_roundtrip q b : set_quantization_bits q = Some b -> forall pts prev,
+    Forall (canonical (ob_center b)) pts -> in_square (ob_center b) prev ->
+    oct_delta_orig (oct_dec_step b) prev (oct_delta_corr b prev pts) = pts /\
+    Forall (in_square (ob_center b)) (oct_delta_corr b prev pts).
+  Proof.
+    intros Hb.
+    assert (Hq : 2 <= q <= 30).
+    { unfold set_quantization_bits in Hb. destruct ((q <? 2) || (q >? 30)) eqn:E; [discriminate|lia]. }
+    pose proof (center_bounds q Hq) as Hc.
+    assert (Eb : b = obox_of_center (2 ^ (q - 1) - 1)).
+    { rewrite (set_quantization_bits_center q Hq) in Hb. injection Hb as <-. reflexivity. }
+    induction pts as [|p pts IH]; intros prev HF Hp; cbn [oct_delta_corr oct_delta_orig]; [split; [reflexivity|constructor]|].
+    apply Forall_cons_iff in HF. destruct HF as [Hcan HF].
+    destruct (oct_canon_roundtrip_q q b p prev Hb Hcan Hp) as [Hrt Hsq].
+    assert (Hstep : oct_dec_step b prev (oct_canon_enc b p prev) = p).
+    { unfold oct_dec_step. rewrite Eb in *. cbn [ob_center obox_of_center] in *.
+      destruct (in_square_i32 _ _ Hc Hsq) as [H1 H2].
+      rewrite (oct_canon_dec_no_overflow_hostile _ prev _ Hc Hp H1 H2). exact Hrt. }
+    rewrite Hstep. destruct (IH p HF (proj1 Hcan)) as [H1 H2]. rewrite H1.
+    split; [reflexivity|constructor; assumption].
+  Qed.
+
+  Lemma origin_in_square c : 0 <= c -> in_square c (0, 0).
+  Proof. unfold in_square. cbn [fst snd]. lia. Qed.
+
+  (** symbols handed to the symbol coder (or written raw) by the normal block *)
+  Definition norm_block_syms (o : int_opts) (q : Z) (pts : list pt) : list Z :=
+    match set_quantization_bits q with
+    | Some b => match io_pred o with
+                | PNone => map (zigzag_enc 32) (flat_pts pts)
+                | PDelta => map (fun v => v mod 2 ^ 32) (flat_pts (oct_delta_corr b (0, 0) pts))
+                end
+    | None => []
+    end.
+
+  (** compressed-or-raw symbol part *)
+  Lemma sym_body_roundtrip o (nc : nat) syms body rest : (0 < nc)%nat -> Forall (fun s => 0 <= s < 2 ^ 32) syms ->
+    (io_builtin o = true -> sym_guard' (Z.of_nat nc) syms) ->
+    enc_sym_body enc_syms o nc syms = Some body ->
+    dec_sym_body dec_syms (length syms) nc (body ++ rest) = Some (syms, rest).
+  Proof.
+    intros Hnc HF Hg He. unfold enc_sym_body in He. destruct (io_builtin o).
+    - destruct (enc_syms (io_method o) (io_level o) (Z.of_nat nc) syms) as [bd|] eqn:Es; [|discriminate].
+      apply Some_inj' in He. subst body. rewrite <- app_assoc.
+      exact (dec_body_builtin enc_syms dec_syms sym_guard' sym_law nc syms bd rest _ _ Hnc (Hg eq_refl) Es).
+    - apply Some_inj' in He. subst body. rewrite <- app_assoc.
+      exact (dec_body_raw dec_syms nc syms rest HF).
+  Qed.
+
+  (** the decoder on the two headers the encoder writes *)
+  Lemma dec_norm_block_none ver n r1 :
+    dec_norm_block dec_syms ver n (254 :: r1) =
+      if (n =? 0)%nat then None else
+      match dec_sym_body dec_syms (n * 2) 2 r1 with
+      | None => None
+      | Some (syms, r4) => Some (pairs (map (zigzag_dec 32) syms), r4)
+      end.
+  Proof. reflexivity. Qed.
+
+  Lemma dec_norm_block_canon ver n r1 :
+    dec_norm_block dec_syms ver n (0 :: 3 :: r1) =
+      if (n =? 0)%nat then None else
+      match dec_sym_body dec_syms (n * 2) 2 r1 with
+      | None => None
+      | Some (syms, r4) =>
+        match dec_le 4 r4 with
+        | None => None
+        | Some (mqv, r5) =>
+          match dec_le 4 r5 with
+          | None => None
+          | Some (_, r6) =>
+            match oct_canon_dec_init (i32_of_u32 mqv) with
+            | None => None
+            | Some b => Some (oct_delta_orig (oct_dec_step b) (0, 0) (pairs (map i32_of_u32 syms)), r6)
+            end
+          end
+        end
+      end.
+  Proof. reflexivity. Qed.
+
+  Lemma map_id_on {A} (f : A -> A) l : Forall (fun x => f x = x) l -> map f l = l.
+  Proof. induction 1 as [|x l Hx _ IH]; [reflexivity|]. cbn [map]. rewrite Hx, IH. reflexivity. Qed.
+
+  (** THE normal-block theorem *)
+  Theorem norm_block_roundtrip ver o q b pts bs rest : pts <> [] -> set_quantization_bits q = Some b ->
+    Forall (canonical (ob_center b)) pts ->
+    (io_builtin o = true -> sym_guard' 2 (norm_block_syms o q pts)) ->
+    enc_norm_block enc_syms o q pts = Some bs ->
+    dec_norm_block dec_syms ver (length pts) (bs ++ rest) = Some (pts, rest).
+  Proof.
+    intros Hne Hb Hcan Hg He.
+    assert (Hq : 2 <= q <= 30).
+    { unfold set_quantization_bits in Hb. destruct ((q <? 2) || (q >? 30)) eqn:E; [discriminate|lia]. }
+    pose proof (center_bounds q Hq) as Hc.
+    assert (Ec : ob_center b = 2 ^ (q - 1) - 1).
+    { rewrite (set_quantization_bits_center q Hq) in Hb. injection Hb as <-. reflexivity. }
+    rewrite <- Ec in Hc.
+    assert (Hn0 : (length pts =? 0)%nat = false) by (destruct pts; [congruence|reflexivity]).
+    assert (He' : enc_norm_block enc_syms o q pts =
+              match enc_sym_body enc_syms o 2 (norm_block_syms o q pts) with
+              | Some body => Some ((match io_pred o with PNone => [254] | PDelta => [0; 3] end) ++ body ++
+                                   (match io_pred o with PNone => [] | PDelta => enc_le 4 (ob_mqv b mod 2 ^ 32) ++ enc_le 4 (ob_center b mod 2 ^ 32) end))
+              | None => None
+              end).
+    { unfold enc_norm_block, norm_block_syms. destruct pts as [|p0 pts']; [congruence|]. rewrite Hb.
+      destruct (io_pred o); reflexivity. }
+    rewrite He' in He. clear He'.
+    destruct (enc_sym_body enc_syms o 2 (norm_block_syms o q pts)) as [body|] eqn:Eb; [|discriminate].
+    apply Some_inj' in He. subst bs.
+    unfold norm_block_syms in *. rewrite Hb in *.
+    destruct (io_pred o).
+    - (* no prediction: zig-zag of the points *)
+      assert (Hi : Forall i32 (flat_pts pts)).
+      { apply Forall_flat_pts. eapply Forall_impl; [|exact Hcan]. cbv beta. intros p [Hp _]. apply (in_square_i32 _ _ Hc Hp). }
+      cbn [app]. rewrite dec_norm_block_none, Hn0. rewrite app_nil_r.
+      replace (length pts * 2)%nat with (length (map (zigzag_enc 32) (flat_pts pts))) by (rewrite map_length; apply flat_pts_length).
+      rewrite (sym_body_roundtrip o 2 _ body rest ltac:(lia) (zigzag_list_range _ Hi) Hg Eb).
+      rewrite (zigzag_list_inverse _ Hi), pairs_flat. reflexivity.
+    - (* delta with the canonicalized octahedral transform *)
+      assert (H0c : 0 <= ob_center b) by lia.
+      destruct (oct_delta_roundtrip q b Hb pts (0, 0) Hcan (origin_in_square _ H0c)) as [Hrt Hsq].
+      set (corrs := oct_delta_corr b (0, 0) pts) in *.
+      assert (Hr : Forall (fun v => 0 <= v < 2 ^ 31) (flat_pts corrs)).
+      { apply Forall_flat_pts. eapply Forall_impl; [|exact Hsq]. cbv beta. intros p Hp.
+        unfold in_square, cmax in *. change (2 ^ 31) with 2147483648. lia. }
+      assert (Hmod : map (fun v => v mod 2 ^ 32) (flat_pts corrs) = flat_pts corrs).
+      { apply map_id_on. eapply Forall_impl; [|exact Hr]. cbv beta. intros v Hv. apply Z.mod_small.
+        change (2 ^ 31) with 2147483648 in Hv. change (2 ^ 32) with 4294967296. lia. }
+      rewrite Hmod in *.
+      assert (H32 : Forall (fun s => 0 <= s < 2 ^ 32) (flat_pts corrs)).
+      { eapply Forall_impl; [|exact Hr]. cbv beta. change (2 ^ 31) with 2147483648. change (2 ^ 32) with 4294967296. lia. }
+      assert (Hid : map i32_of_u32 (flat_pts corrs) = flat_pts corrs).
+      { apply map_id_on. eapply Forall_impl; [|exact Hr]. cbv beta. intros v Hv. unfold i32_of_u32.
+        destruct (v <? 2 ^ 31) eqn:E; [reflexivity|lia]. }
+      destruct (set_qb_dec_init q b Hb) as (Hinit & Hm & Hcc).
+      cbn [app]. rewrite dec_norm_block_canon, Hn0. rewrite <- !app_assoc.
+      replace (length pts * 2)%nat with (length (flat_pts corrs)).
+      2:{ rewrite flat_pts_length. unfold corrs. f_equal.
+          clear. generalize (0, 0). induction pts as [|p pts IH]; intros pv; [reflexivity|]. cbn [oct_delta_corr length]. rewrite IH. reflexivity. }
+      rewrite (sym_body_roundtrip o 2 _ body _ ltac:(lia) H32 Hg Eb).
+      rewrite (le_roundtrips 4 (ob_mqv b mod 2 ^ 32) _ _ (u32_range _) eq_refl).
+      rewrite (le_roundtrips 4 (ob_center b mod 2 ^ 32) _ _ (u32_range _) eq_refl).
+      rewrite i32_of_u32_mod by (unfold i32; change (2 ^ 31) with 2147483648 in Hm; lia).
+      rewrite Hinit, Hid, pairs_flat, Hrt. reflexivity.
+  Qed.
+
+  (** basic facts about the symbols of a normal block *)
+  Theorem norm_block_syms_basic o q b pts : pts <> [] -> set_quantization_bits q = Some b ->
+    Forall (canonical (ob_center b)) pts -> sym_guard_basic 2 (norm_block_syms o q pts).
+  Proof.
+    intros Hne Hb Hcan.
+    assert (Hq : 2 <= q <= 30).
+    { unfold set_quantization_bits in Hb. destruct ((q <? 2) || (q >? 30)) eqn:E; [discriminate|lia]. }
+    pose proof (center_bounds q Hq) as Hc.
+    assert (Ec : ob_center b = 2 ^ (q - 1) - 1).
+    { rewrite (set_quantization_bits_center q Hq) in Hb. injection Hb as <-. reflexivity. }
+    rewrite <- Ec in Hc.
+    assert (Hlen : length (norm_block_syms o q pts) = (length pts * 2)%nat).
+    { unfold norm_block_syms. rewrite Hb. destruct (io_pred o); rewrite map_length, flat_pts_length; [reflexivity|].
+      f_equal. generalize (0, 0). clear. induction pts as [|p pts IH]; intros pv; [reflexivity|]. cbn [oct_delta_corr length]. rewrite IH. reflexivity. }
+    unfold sym_guard_basic. split; [lia|]. split; [|split].
+    - intros E. rewrite E in Hlen. destruct pts; [congruence|cbn in Hlen; lia].
+    - exists (length pts). change (Z.to_nat 2) with 2%nat. exact Hlen.
+    - unfold norm_block_syms. rewrite Hb. destruct (io_pred o).
+      + apply zigzag_list_range. apply Forall_flat_pts. eapply Forall_impl; [|exact Hcan]. cbv beta.
+        intros p [Hp _]. apply (in_square_i32 _ _ Hc Hp).
+      + apply Forall_forall. intros s Hs. apply in_map_iff in Hs. destruct Hs as (v & <- & _). apply Z.mod_pos_bound. lia.
+  Qed.
+End NormBlock.
+
+(** shape on arbitrary bytes (C03) *)
+Section NormBlockShape.
+  Variable dec_syms : nat -> nat -> bytes -> option (list Z * bytes).
+  Hypothesis sym_len : forall n nc bs syms r, (1 <= nc)%nat -> (exists k, n = (k * nc)%nat) ->
+    dec_syms n nc bs = Some (syms, r) -> length syms = n.
+
+  Theorem dec_norm_block_len ver n bs pts r : dec_norm_block dec_syms ver n bs = Some (pts, r) -> length pts = n.
+  Proof.
+    unfold dec_norm_block. destruct bs as [|pmb r0]; [discriminate|].
+    destruct ((i8_of_byte pmb <? PREDICTION_NONE_) || (i8_of_byte pmb >=? NUM_PREDICTION_SCHEMES_)); [discriminate|].
+    match goal with |- match ?h with _ => _ end = _ -> _ => destruct h as [[trt r1]|]; [|discriminate] end.
+    destruct (n =? 0)%nat; [discriminate|].
+    destruct (dec_sym_body dec_syms (n * 2) 2 r1) as [[syms r4]|] eqn:Eb; [|discriminate].
+    assert (Hl : length syms = (n * 2)%nat).
+    { apply (dec_body_len dec_syms sym_len (n * 2) 2 r1 syms r4); [lia|exists n; reflexivity|exact Eb]. }
+    destruct (trt =? PREDICTION_TRANSFORM_NORMAL_OCTAHEDRON_CANONICALIZED_).
+    { destruct (dec_le 4 r4) as [[mqv r5]|]; [|discriminate]. destruct (dec_le 4 r5) as [[cv r6]|]; [|discriminate].
+      destruct (oct_canon_dec_init _) as [b|]; [|discriminate]. intros H. injection H as <- _.
+      rewrite oct_delta_orig_length. apply pairs_length. rewrite map_length. exact Hl. }
+    destruct (trt =? PREDICTION_TRANSFORM_NORMAL_OCTAHEDRON_).
+    { destruct (dec_le 4 r4) as [[mqv r5]|]; [|discriminate].
+      match goal with |- match ?h with _ => _ end = _ -> _ => destruct h as [r6|]; [|discriminate] end.
+      destruct (set_max_quantized_value _) as [b|]; [|discriminate]. intros H. injection H as <- _.
+      rewrite oct_delta_orig_length. apply pairs_length. rewrite map_length. exact Hl. }
+    intros H. injection H as <- _. apply pairs_length. rewrite map_length. exact Hl.
+  Qed.
+End NormBlockShape.
